@@ -33,8 +33,9 @@ type Case struct {
 	H      []string `json:"h"`
 	Pos    Position `json:"pos"`
 	Signer string   `json:"signer"`
-	Reader string   `json:"reader"` // "read": bug.Read in the repository; "merge": identity+bug MergeAll on a second repository
+	Reader string   `json:"reader"`         // "read": bug.Read in the repository; "merge": identity+bug MergeAll on a second repository
 	Kind   string   `json:"kind,omitempty"` // "": commit with an operation; "join": two-parent commit with an empty pack, as merge() writes it
+	Late   bool     `json:"late,omitempty"` // the author's identity is created after bugs exist (its first version records the bug clocks)
 }
 
 func (c Case) ID() string { b, _ := json.Marshal(c); return string(b) }
@@ -69,7 +70,7 @@ func (r *runner) Run(caseID string) Obs {
 	if err := os.MkdirAll(dir, 0o755); err != nil {
 		return Obs{Harness: err.Error()}
 	}
-	b, err := Build(dir, r.keys, c.H, c.Pos, c.Signer, c.Kind)
+	b, err := Build(dir, r.keys, c.H, c.Pos, c.Signer, c.Kind, c.Late)
 	if err != nil {
 		return Obs{Harness: "build: " + err.Error()}
 	}
@@ -283,6 +284,9 @@ func situation(c Case, exp *Expected) string {
 	if c.Kind == "join" {
 		s = "commit=join(empty pack) " + s
 	}
+	if c.Late {
+		s += " identity-created-after-bugs-exist"
+	}
 	if exp != nil {
 		if exp.InForce > 0 {
 			s += " keys-in-force"
@@ -349,6 +353,22 @@ func Evaluate(c Case, res subproc.Result) (f *Finding, obs Obs, harness string) 
 		}
 		return nil, obs, ""
 	}
+	if obs.Verdict != want && exp.TimesDiffer {
+		// the versions do not record the logical time at which they were created: the key history
+		// built through the API (Identity.Mutate + Commit) is not the one the reader applies
+		what := map[string]string{"error": "refused", "accepted": "accepted"}[obs.Verdict]
+		when := "no-key-in-force"
+		if exp.InForce > 0 {
+			when = "keys-in-force"
+		}
+		joined := ""
+		if c.Late {
+			joined = " identity-created-after-bugs-exist"
+		}
+		return &Finding{"verdict", fmt.Sprintf("api-key-history/%s-%s/%s%s reader=%s (expected %s; a version records another time than the clock at its creation)", signerClass(c), when, what, joined, c.Reader, want),
+			fmt.Sprintf("case %s: commit at logical time %d; versions created at clock %v but recording %v; %d key(s) in force by the creation times, signed=%v (by %s), valid under a key in force=%v; git-bug: %s %s",
+				c.ID(), exp.T, exp.Times, exp.Stored, exp.InForce, exp.Signed, obs.SignedBy, exp.Valid, obs.Verdict, obs.Err)}, obs, ""
+	}
 	if obs.Verdict != want {
 		return &Finding{"verdict", fmt.Sprintf("%s: expected %s, observed %s", situation(c, &exp), want, obs.Verdict),
 			fmt.Sprintf("case %s: commit at logical time %d, version times %v, %d key(s) in force, signed=%v (by %s), signature valid under a key in force=%v; git-bug: %s %s",
@@ -401,6 +421,16 @@ func Main(args []string) {
 					cases = append(cases, Case{H: h, Pos: pos, Signer: signer, Reader: reader})
 				}
 			}
+			// the same key history for an identity created after bugs exist (a second user joining:
+			// already its first version records the bug clocks)
+			for _, signer := range []string{"K1", "K2", "nobody"} {
+				for _, reader := range []string{"read", "merge"} {
+					if tier != "thorough" && reader == "merge" && len(h) == 3 {
+						continue
+					}
+					cases = append(cases, Case{H: h, Pos: pos, Signer: signer, Reader: reader, Late: true})
+				}
+			}
 			// the tested commit as a join commit with an empty pack
 			for _, signer := range JoinSigners {
 				for _, reader := range []string{"read", "merge"} {
@@ -450,7 +480,7 @@ func Main(args []string) {
 	rawVerdicts := map[string]int{}
 	outcomes := map[string]bool{}
 	var samples []any
-	executed, skipped, crashes, harnessErrs, unspecified, joinCases, rawCases := 0, 0, 0, 0, 0, 0, 0
+	executed, skipped, crashes, harnessErrs, unspecified, joinCases, rawCases, lateCases := 0, 0, 0, 0, 0, 0, 0, 0
 	expAccept, expReject, boundary := 0, 0, 0
 	exhaustive := true
 	const batch = 2000
@@ -488,6 +518,9 @@ func Main(args []string) {
 			executed++
 			if c.Kind == "join" {
 				joinCases++
+			}
+			if c.Late {
+				lateCases++
 			}
 			if strings.HasPrefix(c.Signer, "raw:") {
 				rawCases++
@@ -573,34 +606,36 @@ func Main(args []string) {
 	known := rep.KnownSeen()
 	sort.Strings(known)
 	cov := map[string]any{
-		"evaluations":         executed,
-		"distinct_nontrivial": len(outcomes),
-		"rule":                "a case is (identity history, position of the tested commit, kind of tested commit: with an operation / join commit with an empty pack, signer, reader) built with git-bug and read in a worker subprocess; distinct non-trivial = number of distinct (kind of tested commit, signer's relation to the history, keys in force or not, commit at a version's own logical time or not, reader, observed verdict) combinations",
-		"exhaustive":          exhaustive && harnessErrs == 0,
-		"planned_cases":       len(cases),
-		"histories":           len(histories),
-		"max_changes":         *maxLen,
-		"alphabet":            Alphabet,
-		"signers":             Signers,
-		"join_commit_signers": JoinSigners,
-		"raw_object_alterations": RawAlterations,
-		"raw_object_cases":    rawCases,
-		"raw_object_verdicts": rawVerdicts,
-		"join_commit_cases":   joinCases,
-		"not_applicable":      skipped,
-		"observed_verdicts":   verdicts,
-		"cases_per_signer":    bySigner,
-		"reference_expects":   map[string]int{"accept": expAccept, "reject_with_error": expReject, "statement_silent(signed although no key in force)": unspecified},
-		"commits_at_a_version_time": boundary,
-		"crashed_cases":       crashes,
+		"evaluations":                       executed,
+		"distinct_nontrivial":               len(outcomes),
+		"rule":                              "a case is (identity history, position of the tested commit, kind of tested commit: with an operation / join commit with an empty pack, signer, reader) built with git-bug and read in a worker subprocess; distinct non-trivial = number of distinct (kind of tested commit, signer's relation to the history, keys in force or not, commit at a version's own logical time or not, reader, observed verdict) combinations",
+		"exhaustive":                        exhaustive && harnessErrs == 0,
+		"planned_cases":                     len(cases),
+		"histories":                         len(histories),
+		"max_changes":                       *maxLen,
+		"alphabet":                          Alphabet,
+		"signers":                           Signers,
+		"join_commit_signers":               JoinSigners,
+		"late_identity_cases":               lateCases,
+		"raw_object_alterations":            RawAlterations,
+		"raw_object_cases":                  rawCases,
+		"raw_object_verdicts":               rawVerdicts,
+		"join_commit_cases":                 joinCases,
+		"not_applicable":                    skipped,
+		"observed_verdicts":                 verdicts,
+		"cases_per_signer":                  bySigner,
+		"reference_expects":                 map[string]int{"accept": expAccept, "reject_with_error": expReject, "statement_silent(signed although no key in force)": unspecified},
+		"commits_at_a_version_time":         boundary,
+		"crashed_cases":                     crashes,
 		"distinct_findings_including_known": len(found) - flakes,
-		"samples":             samples,
+		"samples":                           samples,
 	}
 	ev := evidence.Evidence{PropertyID: "C08", Tier: tier, Seed: seed, Level: "exploration", Coverage: cov,
 		Assumptions: []string{
 			"every case is built by git-bug itself (identity versions, bug commits, signatures through StoreSignedCommit; the signer is chosen by an identity.Interface wrapper overriding SigningKey only) and read by the real bug.Read / MergeAll in a worker subprocess; a dead worker is the observation 'crash'",
 			"readers resolve the author from git, so keys are public-only, as for every reader other than the author's own process",
-			"the reference evaluates keysInForce(history, T) = key set of the last version whose recorded bugs-edit time <= T on the stored version blobs, and checks signatures with the OpenPGP packet primitives directly on the commit as stored",
+			"the identity versions are made through the real API (identity.NewIdentity / Identity.Mutate + Commit) in a repository whose bug clocks advance between the steps; the logical time of a version is the value of the bug edit clock read right before it is created, not what the version recorded (a difference is reported with the verdicts it changes)",
+			"the reference evaluates keysInForce(history, T) = key set of the last version whose creation time <= T (key sets from the stored version blobs), and checks signatures with the OpenPGP packet primitives directly on the commit as stored",
 			"a key introduced by a version recorded at time T is in force for a commit at T (the statement's boundary), so an unsigned commit made at the logical time the key-adding version records is expected to be rejected",
 			"RSA keys are generated once and kept in harness/props/c08/testdata/keys.json; signatures embed the wall clock, so commit hashes differ between runs while verdicts do not",
 			"altered commits: the operation pack text (tree) or the parent list is changed after signing, the signature header is kept (written with go-git plumbing on the same directory)",
